@@ -544,6 +544,38 @@ fn time_case(src: &mut Src, ctx: &mut Ctx) -> Result<(), String> {
     Ok(())
 }
 
+// ---- shared nesting: a hierarchy in which every level places the next one two or three times ----------------
+/// The stream is a few kilobytes; the number of *paths* through it is astronomic. Reading is about the bytes,
+/// not the paths: the call must return (the hang watchdog and the CPU limit see to it that it is noticed).
+fn shared_nesting_case(src: &mut Src, ctx: &mut Ctx) -> Result<(), String> {
+    let i = src.u64();
+    let levels = [8usize, 16, 24, 31, 32, 33, 40, 64][(i % 8) as usize];
+    let fan = 1 + (i / 8) % 3 + 1; // 2..4 references per level (the last variant: a self-reference twice over)
+    let d = [1i16; 12];
+    let c = MCommon::default();
+    let top_first = (i / 32) % 2 == 0;
+    let mut st: Vec<MStruct> = (0..levels)
+        .map(|l| MStruct {
+            name: format!("lvl{}", l),
+            dates: d,
+            elems: if l + 1 == levels { vec![MElem::Boundary { layer: 1, datatype: 0, xy: vec![(0, 0), (1, 0), (1, 1), (0, 0)], c: c.clone() }] } else { (0..fan).map(|k| MElem::Sref { name: format!("lvl{}", l + 1), xy: (k as i32 * 10, 0), strans: None, c: c.clone() }).collect() },
+        })
+        .collect();
+    if !top_first {
+        st.reverse();
+    }
+    let m = MLib { name: "nest".into(), version: 3, dates: d, units: (1e-3f64.to_bits(), 1e-9f64.to_bits()), structs: st };
+    let bytes = S::encode(&m, &S::EncOpts::default()).out;
+    ctx.nontrivial(hash_of(&(levels, fan, top_first)));
+    ctx.label(&format!("{} levels, each placing the next {} times", levels, fan));
+    let (r, dt) = alloc::thread_cpu(|| check_bytes(&bytes, false, ctx));
+    // a few kilobytes: anything near a second of CPU time is not "proportional to the input length"
+    if dt > 2.0 {
+        return Err(format!("reading a {}-byte stream ({} levels, each placing the next {} times) took {:.1} s of CPU time", bytes.len(), levels, fan, dt));
+    }
+    r.map_err(|e| format!("{} levels x {}: {}", levels, fan, e))
+}
+
 fn run(run: &mut Run) {
     engine::journal::set_hang_ms(30_000);
     run.rule("Base streams: 30 generated valid streams (all element kinds, <= ~2 KB), one stream with a 32 KB XY record, 3 repository files. (i) every truncation point of every base; (ii) every single-record fault (6 length faults, empty payload, 64 record types, 8 data types, delete/duplicate/swap, 8 splices) at every record of the generated bases and every n-th record of the repository files; (ii-b) a well-formed record of each of the 64 record types x 11 payload shapes inserted at every record boundary of the generated bases; (ii-c) floods: each of those records repeated 100 000 times at library, structure and element level of two bases, read on a 2 MB stack; (iii) proptest-driven byte mutations and noise; extreme/unnormalised reals in UNITS; allocation scaling. Non-trivial = faulted stream differs from its base; distinct by hash of the bytes.");
@@ -561,6 +593,7 @@ fn run(run: &mut Run) {
     run.explore("mutations", run.tier.pick(400_000, 4_000_000), 64, &noise_case);
     run.enumerate("alloc-scaling", run.tier.pick(2 * 5, 2 * 7), &scaling_case);
     run.enumerate("time-scaling", 5, &time_case);
+    run.enumerate("shared-nesting", 48, &shared_nesting_case);
 }
 fn case(sub: &str) -> Option<Box<CaseFn<'static>>> {
     match sub {
@@ -576,6 +609,7 @@ fn case(sub: &str) -> Option<Box<CaseFn<'static>>> {
         "mutations" => Some(Box::new(noise_case)),
         "alloc-scaling" => Some(Box::new(scaling_case)),
         "time-scaling" => Some(Box::new(time_case)),
+        "shared-nesting" => Some(Box::new(shared_nesting_case)),
         "raw-file" => Some(Box::new(|src: &mut Src, ctx: &mut Ctx| {
             let mut bytes = vec![];
             while !src.exhausted() {
